@@ -90,6 +90,8 @@ def cases(tier, seed):
             idx += 1
     for k, cls in enumerate(["gauss", "int", "pure_imag", "sparse", "single_axis", "mixed_mag"] * (2 if tier == "quick" else 10)):
         out.append({"kind": "alias", "cls": "alias_forms", "entry": cls, "idx": k, "seed": seed})
+    for k in range(10 if tier == "quick" else 60):
+        out.append({"kind": "container_history", "cls": "container_history", "idx": k, "seed": seed})
     for k, cls in enumerate(["gauss", "sparse", "int", "sparse_dense_pattern", "pure_imag"] * (2 if tier == "quick" else 8)):
         out.append({"kind": "big", "cls": "big", "entry": cls, "idx": k, "seed": seed})
     for rep in range(24 if tier == "quick" else 400):
@@ -115,6 +117,8 @@ def run_case(spec, ctx, R):
         _big(spec, ctx, R)
     elif k == "alias":
         _alias_forms(spec, ctx, R)
+    elif k == "container_history":
+        _container_history(spec, ctx, R)
     elif k == "random":
         _random(spec, ctx, R)
     elif k == "laws":
@@ -311,6 +315,57 @@ def _alias_forms(spec, ctx, R):
         ref = refq.matmul(ref, np.array(A, copy=True))
     sc = max(refq.fro(ref), 1e-300)
     ctx.check("product_T2", refq.fro(P - ref) / sc, 64 * n * n * refq.EPS * 4, site="dd:result_fed_back", detail={"n": n})
+
+
+def _container_history(spec, ctx, R):
+    """Call histories over PERSISTENT operand objects: one dense array and one SparseQuaternionMatrix live across several products while
+    the caller updates them in place (X *= 2, one entry set, stored sparse values rescaled).  Each product is compared with the
+    definition evaluated on the operands' CURRENT contents."""
+    U = R.utils
+    rng = gen.rng_for(spec["seed"], "c01hist", spec["idx"])
+    m, kk, n = (int(x) for x in rng.integers(2, 6, size=3))
+    X = gen.entries(rng, "int", m, kk)
+    Sd = gen.entries(rng, "int", kk, n) * (rng.random((kk, n)) < 0.7)
+    S = R.sparse_from_dense(Sd)
+    Y = gen.entries(rng, "int", n, m)
+    T = R.sparse_from_dense(gen.entries(rng, "int", n, kk) * (rng.random((n, kk)) < 0.7))
+    ctx.distinct("container_history", X, Sd)
+
+    def step(label):
+        Sn, Tn = densify(S), densify(T)
+        for site, got, ref_a, ref_b in (("ds", lambda: U.quat_matmat(X, S), X, Sn), ("sd", lambda: U.quat_matmat(S, Y), Sn, Y),
+                                         ("ss", lambda: U.quat_matmat(S, T), Sn, Tn), ("op_sd", lambda: S @ Y, Sn, Y), ("dd", lambda: U.quat_matmat(X, Sn), X, Sn)):
+            try:
+                C = got()
+                C = densify(C) if isinstance(C, U.SparseQuaternionMatrix) else C
+            except Exception as e:
+                ctx.check("product_T2", False, site=site + ":history:" + label, detail={"exception": repr(e)[:200]})
+                continue
+            _t2_check(ctx, "product_T2", site + ":history:" + label, C, np.array(ref_a, copy=True), np.array(ref_b, copy=True), extra={"step": label})
+        for Z, Zn, nm in ((S, Sn, "S"), (T, Tn, "T")):
+            try:
+                v = float(U.quat_frobenius_norm(Z))
+                ctx.check("fro_formats", abs(v - refq.fro(Zn)), 64 * refq.EPS * max(refq.fro(Zn), 1e-300) * 4, site="sparse:history:" + label)
+                Hs = U.quat_hermitian(Z)
+                ctx.check("herm_involution", bool(np.array_equal(refq.fa(densify(Hs)), refq.fa(refq.herm(Zn)))), site="sparse:history:" + label)
+            except Exception as e:
+                ctx.check("fro_formats", False, site="sparse:history:" + label, detail={"exception": repr(e)[:200]})
+
+    step("first")
+    step("repeat")
+    refq.fa(X)[...] *= 2.0
+    step("dense_scaled_in_place")
+    X[0, 0] = np.quaternion(1.0, -2.0, 0.5, 3.0)
+    step("dense_entry_set")
+    for comp in (S.real, S.k):
+        if comp.nnz:
+            comp.data[...] = comp.data * -3.0
+    step("sparse_values_rescaled_in_place")
+    if T.i.nnz:
+        T.i.data[...] = 0.25
+    refq.fa(Y)[...] = refq.fa(Y)[::-1].copy()
+    step("second_sparse_and_dense_updated")
+    ctx.hit("history:persistent_containers")
 
 
 def _random(spec, ctx, R):
